@@ -35,6 +35,7 @@ type Contract struct {
 	DecList    []*CExpr
 	Modifies   []*ModItem
 	HasMod     bool
+	Resumes    []*ModItem // streams: what resuming the producer may modify
 	Flags      map[string]bool
 	Uses       []string
 	Triggers   [][]*CExpr
@@ -95,7 +96,7 @@ var clauseKW = map[string]bool{
 	"requires": true, "ensures": true, "invariant": true, "modifies": true, "decreases": true,
 	"helper": true, "inline": true, "pure": true, "nowf": true, "use": true, "protocol": true,
 	"yields": true, "param": true, "contract": true, "applies": true, "opaque": true, "entry": true, "spec": true,
-	"terminal": true, "allocates": true, "pred": true, "trigger": true, "assumed": true, "partial": true, "logic": true, "axiom": true, "nilrecv": true, "verify": true,
+	"terminal": true, "allocates": true, "pred": true, "trigger": true, "assumed": true, "partial": true, "stream": true, "resumes": true, "refines": true, "logic": true, "axiom": true, "nilrecv": true, "verify": true,
 }
 
 var labelRe = regexp.MustCompile(`^([A-Za-z_][\w']*)\s*(\[[A-Za-z0-9, ]*\])?\s*:`)
@@ -196,6 +197,35 @@ func (cs *ContractSet) ParseContractLines(file string, lines []string, poss []st
 				cs.Ghosts = append(cs.Ghosts, &GhostDecl{Name: f[1], Type: strings.Join(f[2:], " "), Field: f[0] == "field"})
 			} else {
 				cs.Errors = append(cs.Errors, fmt.Sprintf("%s: bad ghost declaration %q", it.pos, it.rest))
+			}
+		case "stream":
+			// stream name(v1, v2): the values an iterator yields, what the consumer may modify between yields (modifies)
+			// and what resuming the producer may modify (resumes)
+			inGlobal = false
+			curProto = nil
+			cur = newContract("stream", it.rest, it.pos)
+			delete(cs.ByKey, cur.Key)
+			cur.Key = "stream." + cur.Key
+			cs.ByKey[cur.Key] = cur
+		case "refines":
+			if cur != nil {
+				cur.Flags["refines:"+strings.TrimSpace(it.rest)] = true
+			}
+		case "resumes":
+			if cur == nil {
+				continue
+			}
+			for _, m := range splitTop(it.rest) {
+				m = strings.TrimSpace(m)
+				if m == "" || m == "nothing" {
+					continue
+				}
+				e, err := ParseCExpr(m)
+				if err != nil {
+					cs.Errors = append(cs.Errors, fmt.Sprintf("%s: %v", it.pos, err))
+					continue
+				}
+				cur.Resumes = append(cur.Resumes, &ModItem{Text: m, Expr: e})
 			}
 		case "protocol":
 			// protocol name(p1, p2): a contract for function values (callbacks, yield functions)
